@@ -150,11 +150,12 @@ def parse_probe(out):
                           'absdyn': ints(kv['absdyn']), 'fired': ints(kv['fired']), 'chain': ints(kv['chain']),
                           'view1': ints(kv['view1']), 'view2': ints(kv['view2']),
                           'firedself': ints(kv.get('firedself', '-')), 'chainself': ints(kv.get('chainself', '-')),
-                          'remaster': kv.get('remaster', '-')})
+                          'remaster': kv.get('remaster', '-'), 'rechain': ints(kv.get('rechain', '-')),
+                          'nested': ints(kv.get('nested', '-')), 'refired': ints(kv.get('refired', '-'))})
     return cats, absanc, ifaces, noiface, nodes
 
 
-OBS_KEYS = ('cat', 'dyn', 'absdyn', 'fired', 'chain', 'view1', 'view2', 'firedself', 'chainself')
+OBS_KEYS = ('cat', 'dyn', 'absdyn', 'fired', 'chain', 'view1', 'view2', 'firedself', 'chainself', 'rechain', 'nested', 'refired')
 # Declaration kinds that cannot be declared twice (include/ipr/impl: "Parameters, base-subobjects and enumerations cannot be multiply
 # declared in a given region"; a handler has one exception parameter): their nodes are always their own master.
 NOT_REDECLARABLE = {'Parameter', 'Enumerator', 'Base_type', 'EH_parameter'}
@@ -291,6 +292,16 @@ class Observation:
                     bad.append('%s handed ANOTHER OBJECT than the visited node to the hook(s) %s%s' % (
                         what, '[' + ', '.join(others) + ']',
                         ' (the node is a redeclaration: its master() is another node)' if r.get('remaster') == '1' else ''))
+            # one entry into the hooks per call of accept, whatever happened to this (node, visitor) pair before
+            ch = r['chain']
+            if r['rechain'] != ch:
+                bad.append('a visitor whose first hook raised was offered the node again: the hooks entered that time are %s, not %s' % (hn(r['rechain']), hn(ch)))
+            if ch and r['nested'] != ch[:1] + ch + ch[1:]:
+                bad.append('a hook had the same visitor visit the same node again before returning: the hooks entered are %s, not %s' % (
+                    hn(r['nested']), hn(ch[:1] + ch + ch[1:])))
+            if r['refired'] != [own, own, own]:
+                bad.append('a visitor overriding every hook, whose hook raised at the first visit, visits the node again and, from inside '
+                           'that hook, once more: the hooks entered (the raising one included) are %s, not %s' % (hn(r['refired']), hn([own, own, own])))
             if r['view1'] != [own] or r['view2']:
                 bad.append('util::view<K> answers the node for K in %s%s; it must do so for K = %s only' % (
                     hn(r['view1']), (' and another node for K in ' + hn(r['view2'])) if r['view2'] else '', self.code_name.get(own)))
